@@ -82,6 +82,12 @@ def build(env, name):
         return K.SubsetRBF(slice(1, 3), length_scale=_ls(env, 2)), D
     if name == "SubsetARBF":
         return K.SubsetARBF([3, 1], order=2, length_scale=_ls(env, 2), scale=env.arr("s", (3,), "pos", hi="8")), D
+    if name == "SubsetAddRQ":
+        return K.SubsetAddRQ([3, 1], order=2, alpha=env.const(Fraction(3, 2)), length_scale=_ls(env, 2), scale=env.arr("s", (3,), "pos", hi="8")), D
+    if name == "SubsetAddLLRBF":
+        return K.SubsetAddLLRBF([1, 0], order=1, alpha=env.const(Fraction(3, 2)), length_scale=_ls(env, 2), scale=env.arr("s", (2,), "pos", hi="8")), D
+    if name == "SubsetAddLLRBF_slice":
+        return K.SubsetAddLLRBF(slice(0, 4, 2), order=1, alpha=env.const(Fraction(3, 2)), length_scale=_ls(env, 2), scale=env.arr("s", (2,), "pos", hi="8")), D
     if name == "SubsetPoly":
         return K.SubsetPoly([3, 1], order=2, gamma=env.arr("g", (2,), "pos", hi="8"), factorial=False), D
     if name == "SpinSymRBF":
@@ -119,7 +125,7 @@ def build(env, name):
 
 
 KERNELS_QUICK = ["RBF", "RBF_iso", "RBF_fixed", "Linear", "Poly2fa", "Poly3ni", "Poly2fax", "ARBF2", "ARBF2L", "ARBF2S", "ARBFV2_2", "AddLLRBF_2", "AddRQ_2",
-                 "SubsetRBF", "SubsetRBF_slice", "SubsetARBF", "SubsetPoly", "SpinSymRBF", "SpinSymPoly", "PartialRBF", "PartialRBF_dims", "Antisym",
+                 "SubsetRBF", "SubsetRBF_slice", "SubsetARBF", "SubsetAddRQ", "SubsetAddLLRBF", "SubsetAddLLRBF_slice", "SubsetPoly", "SpinSymRBF", "SpinSymPoly", "PartialRBF", "PartialRBF_dims", "Antisym",
                  "Const*RBF", "RBF+RBF", "RBF*Poly", "RBF**2", "Linear**2", "White+RBF", "Transform",
                  "ARBF2_iso", "ARBFV2_2_iso", "AddRQ_2_iso", "AddLLRBF_2_iso", "SubsetARBF_iso", "Poly2f_iso"]
 KERNELS_THOROUGH = KERNELS_QUICK + ["Poly3fa", "Poly2ni", "Poly3na", "ARBF1", "ARBF3", "ARBFV2_1", "AddLLRBF_1", "AddRQ_1", "SpinSymARBF", "(RBF+c)**3", "Linear**3"]
